@@ -5,6 +5,7 @@ import (
 	"bytes"
 	"errors"
 	"fmt"
+	"os"
 	"strconv"
 	"strings"
 	"sync"
@@ -66,6 +67,19 @@ func run(c *vk.Ctx, can *rig.Canary, sc scen, idx int) {
 		cfg.OnSession = func(h *simplefixgo.DefaultHandler, s *session.Session) {
 			obsIDs[0] = h.HandleOutgoing(simplefixgo.AcceptedMsgTypes, func(simplefixgo.SendingMessage) bool { return true })
 			obsIDs[1] = h.HandleOutgoing(simplefixgo.AllMsgTypes, func(simplefixgo.SendingMessage) bool { return true })
+		}
+	case "resend-batch-refused-midway":
+		// an application handler for its message type lets the message marked "once" pass the first time and refuses it
+		// from then on: a retransmission batch that contains it is cut short there
+		cfg.AfterRun = func(h *simplefixgo.DefaultHandler, s *session.Session) {
+			var seen int32
+			h.HandleOutgoing("Y", func(m simplefixgo.SendingMessage) bool {
+				b, _ := m.ToBytes()
+				if bytes.Contains(b, []byte("262=once")) {
+					return atomic.AddInt32(&seen, 1) == 1
+				}
+				return true
+			})
 		}
 	case "accepted-stage-observer-returns-false":
 		// an application observer of transmitted messages, registered before the logon; what it returns is documented as ignored
@@ -295,6 +309,36 @@ func run(c *vk.Ctx, can *rig.Canary, sc scen, idx int) {
 			c.Count("app_sends", 2)
 			time.Sleep(N + N*3/10)
 		}
+	case "resend-batch-refused-midway":
+		// two application messages; later the peer asks for both again, 0.7 N after the previous outbound message: the
+		// first is retransmitted (that is outbound traffic), the second is refused by the application's handler. The
+		// Heartbeat is due N after the last message that was really transmitted.
+		time.Sleep(N / 20)
+		_ = l.S.Send(fixgen.CreateMarketDataRequestReject("keep"))
+		_ = l.S.Send(fixgen.CreateMarketDataRequestReject("once"))
+		c.Count("app_sends", 2)
+		first := 0
+		for w := 0; w < 500 && first == 0; w++ {
+			fr, _ := l.Frames()
+			if n := len(fr); n >= 2 && fr[n-1].Type == "Y" && fr[n-2].Type == "Y" {
+				first, _ = strconv.Atoi(fr[n-2].Seq)
+			} else {
+				time.Sleep(2 * time.Millisecond)
+			}
+		}
+		if first == 0 {
+			c.Inconclusive("the two application messages did not reach the wire within 1 s: " + desc)
+			return
+		}
+		for time.Now().Before(end) {
+			target := lastOut().Add(N * 7 / 10)
+			if d := time.Until(target); d > 0 {
+				time.Sleep(d)
+			}
+			l.Conn.Feed(l.Peer.Resend(first, first+1))
+			c.Count("resend_requests", 1)
+			time.Sleep(N / 2)
+		}
 	case "resend-replay-mid-period":
 		// the peer asks for a retransmission N/2 after the previous outbound message: the replay is an outbound message too
 		for time.Now().Before(end) {
@@ -321,11 +365,24 @@ func run(c *vk.Ctx, can *rig.Canary, sc scen, idx int) {
 		}
 	}
 	tEnd := time.Now()
+	if tEnd.Sub(tLogged) < total*8/10 {
+		// a pattern that gave up early has observed next to nothing (a defect of the harness, not of the library)
+		c.Inconclusive(fmt.Sprintf("the pattern ended after %v of the planned %v: %s", tEnd.Sub(tLogged).Round(time.Millisecond), total, desc))
+		close(stop)
+		wg.Wait()
+		return
+	}
 	close(stop)
 	wg.Wait()
 	frames, _ := l.Frames()
 	if sc.earlier != 0 {
 		frames = rig.Since(frames, tLogged)
+	}
+	if os.Getenv("C08_DEBUG") != "" && sc.pattern == "resend-batch-refused-midway" {
+		fmt.Fprintf(os.Stderr, "DEBUG %s: %s\n", desc, trace(frames, len(frames)-1))
+		for k, f := range frames {
+			fmt.Fprintf(os.Stderr, "  #%d +%v 35=%s 34=%s\n", k, f.T.Sub(tLogged).Round(time.Millisecond), f.Type, f.Seq)
+		}
 	}
 	jit := can.Max()
 	if jit > 250*time.Millisecond {
@@ -422,7 +479,7 @@ func main() {
 	var scs []scen
 	for _, role := range []rig.Role{rig.Acceptor, rig.Initiator} {
 		for _, n := range ns {
-			for _, p := range []string{"idle", "send-just-before", "send-inside-last-polling-step", "counter-store-fault-on-one-send", "accepted-stage-observer-returns-false", "send-at-deadline", "send-just-after", "bursts-then-idle", "half-period-sends", "pair-just-under-a-tenth-apart", "resend-replay-mid-period", "handler-send-mid-period", "peer-answers-testrequests-late", "observers-removed-after-logon", "refused-sends-filter-registered-before-logon", "refused-sends-filter-registered-after-logon"} {
+			for _, p := range []string{"idle", "send-just-before", "send-inside-last-polling-step", "counter-store-fault-on-one-send", "accepted-stage-observer-returns-false", "resend-batch-refused-midway", "send-at-deadline", "send-just-after", "bursts-then-idle", "half-period-sends", "pair-just-under-a-tenth-apart", "resend-replay-mid-period", "handler-send-mid-period", "peer-answers-testrequests-late", "observers-removed-after-logon", "refused-sends-filter-registered-before-logon", "refused-sends-filter-registered-after-logon"} {
 				scs = append(scs, scen{role, n, p, periods[n], 0})
 			}
 		}
